@@ -243,7 +243,8 @@ def judge_sites(repo, cg, rep, reached, parent, sites, unaudited, distinct_ext, 
                 # codec lookup imports encodings.<name>: inert only for a literal codec name
                 enc = s.node.args[1] if len(s.node.args) > 1 else next((k.value for k in s.node.keywords if k.arg == "encoding"), None)
                 name0 = s.node.args[0] if s.node.args else None
-                lit = (enc is None and q.split(".")[1] in ("encode", "decode")) or isinstance(enc, ast.Constant) or (q.split(".")[1] in ("lookup", "getencoder", "getdecoder", "getreader", "getwriter") and isinstance(name0, ast.Constant))
+                spread = any(isinstance(a, ast.Starred) for a in s.node.args) or any(k.arg is None for k in s.node.keywords)
+                lit = not spread and ((enc is None and q.split(".")[1] in ("encode", "decode")) or isinstance(enc, ast.Constant) or (q.split(".")[1] in ("lookup", "getencoder", "getdecoder", "getreader", "getwriter") and isinstance(name0, ast.Constant)))
                 v = "inert" if lit else "forbidden"
                 if not lit:
                     q = f"{q}(<codec name computed from data>)"
